@@ -33,6 +33,7 @@ struct Plan
     bool zeroed = false;                            // paired run
     std::size_t call = 0;                           // advanced by the integrand
     std::size_t map_call = 0;                       // advanced by the map (coordinates call)
+    bool disabled_density_poisoned = false, any_disabled_density = false;
     std::vector<unsigned char> counted;             // set by the poisoned run: this evaluation is non-zero only there
 
     static T poison(unsigned kind)
@@ -109,10 +110,31 @@ struct PoisonMap
         if (action == hep::multi_channel_map::calculate_coordinates) { *current = plan->map_call++; }
         T const j = inner(channel, rn, coords, enabled, dens, action);
         unsigned const k = (*current < plan->weight_kind.size()) ? plan->weight_kind[*current] : 0;
+        if (!plan->zeroed && plan->any_disabled_density && (action == hep::multi_channel_map::calculate_densities || fam->dens_early))
+        {
+            // this map fills every channel at every call (the vector is reused by the library)
+            for (std::size_t ch = 0; ch != dens.size(); ++ch) { if (std::find(enabled.begin(), enabled.end(), ch) == enabled.end()) { dens[ch] = T(0.5); } }
+        }
         if (k == 0 || plan->zeroed) { return j; }
         if (action == hep::multi_channel_map::calculate_densities || fam->dens_early)
         {
             if (k == 3) { for (auto ch : enabled) { dens[ch] = T(0); } }
+            if (k == 4)
+            {
+                // a map that fills every channel, whether enabled or not: the density of a disabled channel is not finite
+                // (0 * NaN in the total density); without a disabled channel this is kind 3
+                bool any = false;
+                for (std::size_t ch = 0; ch != dens.size(); ++ch)
+                {
+                    if (std::find(enabled.begin(), enabled.end(), ch) == enabled.end())
+                    {
+                        dens[ch] = (ch % 2) ? std::numeric_limits<T>::infinity() : std::numeric_limits<T>::quiet_NaN();
+                        any = true;
+                        plan->disabled_density_poisoned = true;
+                    }
+                }
+                if (!any) { for (auto ch : enabled) { dens[ch] = T(0); } }
+            }
         }
         if (k == 1) { return std::numeric_limits<T>::quiet_NaN(); }
         if (k == 2) { return std::numeric_limits<T>::infinity(); }
@@ -207,6 +229,7 @@ void run_t(vf::Ctx& c)
             else if (allow_weight) { plan.weight_kind[i] = kind(3); }
             else if (allow_dist) { plan.dist_kind[i][0] = kind(2); }
         }
+        if (plan.weight_kind[i] == 3 && (vf::mix2(ps ^ 0x77, i) & 1)) { plan.weight_kind[i] = 4; plan.any_disabled_density = true; }
     };
     switch (shape)
     {
@@ -359,6 +382,7 @@ void run_t(vf::Ctx& c)
     if (n_ret) { c.label("poisoned-return-value"); }
     if (n_dist) { c.label("poisoned-distribution-datum"); }
     if (n_weight) { c.label("poisoned-weight"); }
+    if (plan.disabled_density_poisoned) { c.label("non-finite-density-of-disabled-channel"); }
     if (shape == 4) { c.label("all-poisoned"); }
     c.label(integrator == 0 ? "PLAIN" : integrator == 1 ? "VEGAS" : "MULTI");
     c.nontrivial = (integrator != 0 && mixed_iteration) || n_dist > 0;
